@@ -979,12 +979,467 @@ fn bus_pressure_sub(tier: Tier) -> Sub {
   sub
 }
 
+
+// ------------------------------------------------------------------------------------------------
+// E3: the connection fails while X has a send towards it in flight
+// ------------------------------------------------------------------------------------------------
+
+#[derive(Clone, Copy, Debug, PartialEq, Eq)]
+enum MidFault {
+  /// the peer's stream is dropped (EOF + broken pipe)
+  Drop,
+  /// the peer writes a frame header announcing 2^40 bytes
+  Garbage,
+  /// the peer shuts down its write side and keeps the stream
+  HalfClose,
+}
+
+#[derive(Clone, Copy, Debug, PartialEq, Eq)]
+enum When {
+  /// X's send towards the faulty peer is parked on its full pipe
+  SendBlocked,
+  /// right after the k-th send towards the faulty peer returned
+  AfterSends(usize),
+}
+
+#[derive(Clone, Copy, Debug)]
+struct MidScenario {
+  /// X's pair (X first); the faulty peer plays the second type
+  pair: Pair,
+  fault: MidFault,
+  when: When,
+  sndtimeo: i32,
+  healthy_first: bool,
+  x_is_server: bool,
+}
+
+#[derive(Debug, Default, Clone)]
+struct MidOut {
+  sends_done_before_fault: usize,
+  send_was_blocked: bool,
+  sender_finished: bool,
+  sender_last: String,
+  base: Out,
+}
+
+const BIG: usize = 6000;
+
+fn mid_world(sc: MidScenario) -> world::WorldResult<MidOut> {
+  world::run(1, move || async move {
+    use std::sync::atomic::{AtomicUsize, Ordering};
+    use std::sync::Arc;
+    let ctx = Context::new().expect("context");
+    let hctx = Context::new().expect("context-h");
+    let (tx, th) = sc.pair.types();
+    let x = mid_sock(&ctx, tx, &[(o::SNDHWM, 1), (o::SNDTIMEO, sc.sndtimeo)]).await;
+    // inbound limit on X only (it makes the impossible frame header a fault); H must be able to take the big messages
+    x.set_option(o::MAXMSGSIZE, &2000i64.to_ne_bytes()[..]).await.expect("maxmsgsize");
+    let h = mid_sock(&hctx, th, &[]).await;
+    let mut out = MidOut::default();
+    let mut links = vec![];
+    let attach_h = |x: Socket, p: Socket, x_is_server: bool| async move {
+      if x_is_server {
+        stack::link_pair(&p, &x, 1 << 16).await
+      } else {
+        stack::link_pair(&x, &p, 1 << 16).await
+      }
+    };
+    if sc.healthy_first {
+      links.push(attach_h(x.clone(), h.clone(), sc.x_is_server).await);
+      settle_n(6).await;
+      match mid_exchange(sc.pair, &x, &h, "pre").await {
+        Ok(()) => out.base.exchanges_ok += 1,
+        Err(e) => out.base.broken.push(("before-any-fault".into(), e)),
+      }
+    }
+    // the peer that is going to fail: a correct handshake, the traffic its role needs, then it stops reading
+    let (good, _) = sc.pair.peer_names();
+    let f_type = match sc.pair {
+      Pair::RepReq => "DEALER", // a REQ cannot pipeline; a DEALER talking to REP can
+      _ => good,
+    };
+    let mut f = stack::raw_peer(&x, sc.x_is_server, 512).await;
+    let _ = stack::write_settle(&mut f, &v3_greeting("NULL", false)).await;
+    let _ = stack::write_settle(&mut f, &ready(f_type, if sc.pair == Pair::RouterDealer { Some(b"F") } else { None })).await;
+    settle_n(4).await;
+    let _ = stack::drain_peer(&mut f).await;
+    match sc.pair {
+      Pair::RepReq => {
+        let mut b = vec![];
+        for i in 0..24 {
+          b.extend_from_slice(&frame(0x01, b""));
+          b.extend_from_slice(&frame(0x00, format!("req-F-{}", i).as_bytes()));
+        }
+        let _ = stack::write_settle(&mut f, &b).await;
+      }
+      Pair::RouterDealer => {
+        let _ = stack::write_settle(&mut f, &frame(0x00, b"hello-from-F")).await;
+      }
+      Pair::PubSub => {
+        let _ = stack::write_settle(&mut f, &frame(0x00, b"\x01")).await;
+      }
+      _ => {}
+    }
+    settle_n(4).await;
+    let _ = stack::drain_peer(&mut f).await;
+    // X's sender: everything it sends goes (or is meant to go) to F
+    let done = Arc::new(AtomicUsize::new(0));
+    let finished = Arc::new(parking_lot_free::Flag::default());
+    let last = Arc::new(std::sync::Mutex::new(String::new()));
+    let limit = match sc.when {
+      When::SendBlocked => 64usize,
+      When::AfterSends(k) => k,
+    };
+    let spawn_sender = |limit: usize| {
+      let (x, done, finished, last) = (x.clone(), done.clone(), finished.clone(), last.clone());
+      let pair = sc.pair;
+      tokio::spawn(async move {
+        let big = vec![b'B'; BIG];
+        for _ in 0..limit {
+          let r = match pair {
+            Pair::RepReq => match x.recv().await {
+              Ok(m) if m.data().unwrap_or(&[]).starts_with(b"req-F") => x.send(msg(&big, false)).await,
+              Ok(_) => x.send(msg(b"m-stray", false)).await,
+              Err(e) => Err(e),
+            },
+            Pair::RouterDealer => x.send_multipart(vec![msg(b"F", true), msg(&big, false)]).await,
+            _ => x.send(msg(&big, false)).await,
+          };
+          match r {
+            Ok(()) => {
+              done.fetch_add(1, Ordering::SeqCst);
+            }
+            Err(e) => {
+              *last.lock().unwrap() = e.to_string();
+              break;
+            }
+          }
+        }
+        finished.set();
+      })
+    };
+    if sc.pair == Pair::RouterDealer {
+      // learn F's identity the way an application does (and take its hello out of the way)
+      let _ = x.recv_multipart().await;
+    }
+    let sender = spawn_sender(limit);
+    // wait until the sender is parked (virtual time passes only while everything is idle)
+    let mut stable = 0;
+    let mut prev = usize::MAX;
+    for _ in 0..40 {
+      settle_n(3).await;
+      if sc.sndtimeo < 0 || matches!(sc.when, When::AfterSends(_)) {
+        tokio::time::sleep(Duration::from_millis(1)).await;
+      }
+      let d = done.load(Ordering::SeqCst);
+      if finished.get() {
+        break;
+      }
+      if d == prev {
+        stable += 1;
+        if stable >= 3 {
+          break;
+        }
+      } else {
+        stable = 0;
+        prev = d;
+      }
+    }
+    out.sends_done_before_fault = done.load(Ordering::SeqCst);
+    out.send_was_blocked = !finished.get();
+    // the fault
+    let mut keep_f = None;
+    match sc.fault {
+      MidFault::Drop => drop(f),
+      MidFault::Garbage => {
+        let mut g = vec![0x02u8];
+        g.extend_from_slice(&(1u64 << 40).to_be_bytes());
+        g.extend_from_slice(b"abc");
+        let _ = f.write_all(&g).await;
+        let _ = f.flush().await;
+        keep_f = Some(f);
+      }
+      MidFault::HalfClose => {
+        let _ = f.shutdown().await;
+        keep_f = Some(f);
+      }
+    }
+    settle_n(6).await;
+    let wait_finished = |finished: Arc<parking_lot_free::Flag>| async move {
+      let _ = tokio::time::timeout(Duration::from_secs(60), async {
+        while !finished.get() {
+          tokio::time::sleep(Duration::from_millis(20)).await;
+        }
+      })
+      .await;
+    };
+    wait_finished(finished.clone()).await;
+    let mut senders = vec![sender];
+    if matches!(sc.when, When::AfterSends(_)) && finished.get() {
+      // keep sending into the failing / failed connection
+      finished.clear();
+      senders.push(spawn_sender(8));
+      wait_finished(finished.clone()).await;
+    }
+    out.sender_finished = finished.get();
+    out.sender_last = last.lock().unwrap().clone();
+    settle_n(6).await;
+    drop(keep_f);
+    settle_n(6).await;
+    if !sc.healthy_first {
+      links.push(attach_h(x.clone(), h.clone(), sc.x_is_server).await);
+      settle_n(6).await;
+    }
+    // X is an ordinary socket again: its healthy connection works (a load-balancing X may still
+    // be delivering the sender's remaining messages to H: the exchange skips them)
+    let mut first_err: Option<String> = None;
+    let mut ok = false;
+    for k in 0..4 {
+      match mid_exchange(sc.pair, &x, &h, &format!("post{}", k)).await {
+        Ok(()) => {
+          ok = true;
+          break;
+        }
+        Err(e) => {
+          first_err.get_or_insert(e);
+        }
+      }
+    }
+    if ok {
+      out.base.exchanges_ok += 1;
+    } else {
+      out.base.broken.push(("after-fault".into(), first_err.unwrap_or_default()));
+    }
+    out.base.x_closed = still_open(&x).await;
+    out.base.h_closed = still_open(&h).await;
+    let h2 = mid_sock(&hctx, th, &[]).await;
+    links.push(attach_h(x.clone(), h2.clone(), sc.x_is_server).await);
+    settle_n(6).await;
+    let mut ok = false;
+    let mut first_err: Option<String> = None;
+    for k in 0..5 {
+      match mid_exchange(sc.pair, &x, &h2, &format!("n{}", k)).await {
+        Ok(()) => {
+          ok = true;
+          break;
+        }
+        Err(e) => {
+          first_err.get_or_insert(e);
+        }
+      }
+    }
+    if !ok {
+      out.base.new_peer_failed = first_err;
+    }
+    drop(senders);
+    for l in &links {
+      l.destroy();
+    }
+    let _ = tokio::time::timeout(Duration::from_secs(30), ctx.term()).await;
+    let _ = tokio::time::timeout(Duration::from_secs(30), hctx.term()).await;
+    out
+  })
+}
+
+async fn mid_sock(ctx: &Context, ty: SocketType, extra: &[(i32, i32)]) -> Socket {
+  let mut opts = vec![(o::RCVTIMEO, 50), (o::SNDTIMEO, 50), (o::LINGER, 0)];
+  opts.extend_from_slice(extra);
+  let s = stack::mk(ctx, ty, &opts).await;
+  if ty == SocketType::Sub {
+    s.set_option(o::SUBSCRIBE, &b""[..]).await.expect("subscribe");
+  }
+  s
+}
+
+/// receive until a message whose last frame is `body` shows up; everything else (left-overs of the
+/// failed peer, the sender's big messages, strays of earlier rounds) is skipped
+async fn recv_body(s: &Socket, body: &[u8], what: &str) -> Result<Vec<rzmq::Msg>, String> {
+  let mut idle = 0;
+  for _ in 0..400 {
+    match s.recv_multipart().await {
+      Ok(fr) => {
+        if fr.last().map(|m| m.data().unwrap_or(&[]) == body).unwrap_or(false) {
+          return Ok(fr);
+        }
+      }
+      Err(e) if stack::is_would_block(&e) => {
+        idle += 1;
+        if idle >= 3 {
+          return Err(format!("{}: {}", what, e));
+        }
+      }
+      Err(e) => return Err(format!("{}: {}", what, e)),
+    }
+  }
+  Err(format!("{}: the expected message never arrived", what))
+}
+
+/// One application-level exchange X <-> P that tolerates foreign messages on both sides. A REP X
+/// answers whatever is left over from the failed peer first (an application serving a REP socket
+/// does exactly that: recv, send, recv, ...).
+async fn mid_exchange(pair: Pair, x: &Socket, p: &Socket, tag: &str) -> Result<(), String> {
+  let body = format!("m-{}", tag).into_bytes();
+  match pair {
+    Pair::RepReq => {
+      if let Err(e) = p.send(msg(&body, false)).await {
+        // a REQ whose previous round failed: finish that round, then try once more
+        let _ = p.recv().await;
+        p.send(msg(&body, false)).await.map_err(|e2| format!("healthy REQ send: {} (then {})", e, e2))?;
+      }
+      settle().await;
+      let mut idle = 0;
+      let mut errors = 0;
+      for _ in 0..120 {
+        let m = match x.recv().await {
+          Ok(m) => m,
+          Err(e) if stack::is_would_block(&e) && idle < 3 => {
+            idle += 1;
+            continue;
+          }
+          // a request of the vanished peer that was already queued may surface as an error of this
+          // one recv(); the socket has to carry on with the next request
+          Err(e) if !stack::is_would_block(&e) && errors < 40 => {
+            errors += 1;
+            let _ = e;
+            continue;
+          }
+          Err(e) => return Err(format!("REP recv: {}", e)),
+        };
+        let ours = m.data().unwrap_or(&[]) == &body[..];
+        let r = x.send(msg(if ours { &body[..] } else { &b"left-over"[..] }, false)).await;
+        if ours {
+          r.map_err(|e| format!("REP send: {}", e))?;
+          settle().await;
+          return recv_body(p, &body, "healthy REQ recv").await.map(|_| ());
+        }
+      }
+      Err("REP never saw the healthy peer's request".into())
+    }
+    Pair::RouterDealer => {
+      p.send(msg(&body, false)).await.map_err(|e| format!("healthy DEALER send: {}", e))?;
+      settle().await;
+      let fr = recv_body(x, &body, "ROUTER recv").await?;
+      if fr.len() != 2 {
+        return Err(format!("ROUTER recv: {} frames", fr.len()));
+      }
+      let id = fr[0].data().unwrap_or(&[]).to_vec();
+      x.send_multipart(vec![msg(&id, true), msg(&body, false)]).await.map_err(|e| format!("ROUTER reply: {}", e))?;
+      settle().await;
+      recv_body(p, &body, "healthy DEALER recv").await.map(|_| ())
+    }
+    Pair::DealerRouter => {
+      x.send(msg(&body, false)).await.map_err(|e| format!("DEALER send: {}", e))?;
+      settle().await;
+      let fr = recv_body(p, &body, "healthy ROUTER recv").await?;
+      if fr.len() != 2 {
+        return Err(format!("healthy ROUTER recv: {} frames", fr.len()));
+      }
+      let id = fr[0].data().unwrap_or(&[]).to_vec();
+      p.send_multipart(vec![msg(&id, true), msg(&body, false)]).await.map_err(|e| format!("healthy ROUTER reply: {}", e))?;
+      settle().await;
+      recv_body(x, &body, "DEALER recv").await.map(|_| ())
+    }
+    Pair::PushPull => {
+      x.send(msg(&body, false)).await.map_err(|e| format!("PUSH send: {}", e))?;
+      settle().await;
+      recv_body(p, &body, "healthy PULL recv").await.map(|_| ())
+    }
+    Pair::PubSub => {
+      x.send(msg(&body, false)).await.map_err(|e| format!("PUB send: {}", e))?;
+      settle().await;
+      recv_body(p, &body, "healthy SUB recv").await.map(|_| ())
+    }
+    _ => Err("pair not used in this sub".into()),
+  }
+}
+
+mod parking_lot_free {
+  use std::sync::atomic::{AtomicBool, Ordering};
+  #[derive(Default)]
+  pub struct Flag(AtomicBool);
+  impl Flag {
+    pub fn set(&self) {
+      self.0.store(true, Ordering::SeqCst)
+    }
+    pub fn clear(&self) {
+      self.0.store(false, Ordering::SeqCst)
+    }
+    pub fn get(&self) -> bool {
+      self.0.load(Ordering::SeqCst)
+    }
+  }
+}
+
+fn mid_scenarios(tier: Tier) -> Vec<MidScenario> {
+  let mut v = vec![];
+  for pair in [Pair::RepReq, Pair::RouterDealer, Pair::DealerRouter, Pair::PushPull, Pair::PubSub] {
+    for fault in [MidFault::Drop, MidFault::Garbage, MidFault::HalfClose] {
+      let whens: Vec<When> = if tier == Tier::Thorough { vec![When::SendBlocked, When::AfterSends(1), When::AfterSends(2), When::AfterSends(3), When::AfterSends(5)] } else { vec![When::SendBlocked, When::AfterSends(1), When::AfterSends(3)] };
+      for when in whens {
+        let timeos: Vec<i32> = if pair == Pair::PubSub { vec![300] } else if tier == Tier::Thorough { vec![-1, 300, 5000] } else { vec![-1, 300] };
+        for sndtimeo in timeos {
+          let firsts: &[bool] = if pair.x_load_balances() { &[false] } else { &[true, false] };
+          for &healthy_first in firsts {
+            for x_is_server in [true, false] {
+              v.push(MidScenario { pair, fault, when, sndtimeo, healthy_first, x_is_server });
+            }
+          }
+        }
+      }
+    }
+  }
+  v
+}
+
+fn mid_sub(tier: Tier) -> Sub {
+  let mut sub = Sub::new("fault-during-send", "E3");
+  sub.rule = "case = one world: socket X (SNDHWM=1) with a scripted peer F that completes the handshake, sends what its role needs (pipelined requests / a hello / a subscription) and stops reading; X keeps sending 6000-byte messages towards F; the fault (stream dropped / impossible frame header / half-close) is injected either while X's send is parked on F's full pipe or right after the k-th send returned; afterwards X exchanges with a healthy rzmq peer H (attached before or after) and with a newly attached peer; non-trivial = X's sender had accepted at least one message for F; oracle: the exchanges with H and with the new peer succeed, X and H stay open, nothing panics, the parked send returns".into();
+  let list = mid_scenarios(tier);
+  sub.bounds = json!({"scenarios": list.len(), "x_types": ["REP", "ROUTER", "DEALER", "PUSH", "PUB"], "faults": 3, "sndtimeo_ms": [-1, 300, 5000]});
+  par::enumerate(&mut sub, list.len(), |i| {
+    let sc = list[i];
+    let r = mid_world(sc);
+    let wit = json!({"explorer": "e3", "sub": "fault-during-send", "index": i, "scenario": format!("{:?}", sc)});
+    let class = format!("{:?}:{:?}:{}", sc.pair, sc.fault, if sc.when == When::SendBlocked { "send-parked" } else { "between-sends" });
+    let mut case = Case { steps: 6, ..Default::default() };
+    for p in &r.panics {
+      case.violations.push(("panic".into(), format!("{}:{:?}", p.rsplit(" @ ").next().map(mc_core::short_loc).unwrap_or_default(), sc.fault), p.clone(), wit.clone()));
+    }
+    if let Some(o) = r.result {
+      case.nontrivial = o.sends_done_before_fault >= 1;
+      case.outcome = mc_core::digest(&(o.base.broken.len(), o.base.x_closed.is_some(), o.base.new_peer_failed.is_some(), o.send_was_blocked, o.sender_finished, o.sender_last.clone()));
+      case.state = mc_core::digest(&(format!("{:?}", sc), o.sends_done_before_fault, o.send_was_blocked));
+      if let Some((stage, e)) = o.base.broken.first() {
+        case.violations.push(("healthy-connection-disturbed".into(), class.clone(), format!("{}: {} (SNDTIMEO {}, healthy peer attached {}, {} sends accepted before the fault, sender ended with {:?})", stage, e, sc.sndtimeo, if sc.healthy_first { "first" } else { "afterwards" }, o.sends_done_before_fault, o.sender_last), wit.clone()));
+      }
+      if let Some(e) = &o.base.x_closed {
+        case.violations.push(("socket-shut-down-by-peer-fault".into(), class.clone(), e.clone(), wit.clone()));
+      }
+      if let Some(e) = &o.base.h_closed {
+        case.violations.push(("healthy-peer-socket-shut-down".into(), class.clone(), e.clone(), wit.clone()));
+      }
+      if let Some(e) = &o.base.new_peer_failed {
+        case.violations.push(("new-connection-not-served-after-fault".into(), class.clone(), e.clone(), wit.clone()));
+      }
+      if !o.sender_finished && !(sc.pair.x_load_balances() && sc.sndtimeo < 0) {
+        case.violations.push(("send-to-failed-peer-never-returns".into(), class.clone(), format!("X's sender was still inside send() 60 s (virtual) after the connection failed (SNDTIMEO {})", sc.sndtimeo), wit.clone()));
+      }
+      if i % 23 == 0 {
+        case.sample = Some(json!({"scenario": format!("{:?}", sc), "sends_before_fault": o.sends_done_before_fault, "send_was_parked": o.send_was_blocked, "sender_ended_with": o.sender_last}));
+      }
+    }
+    case
+  });
+  sub
+}
+
 pub fn run(tier: Tier) -> Report {
   let mut rep = Report::new("C17", tier, "model_checking");
   rep.assume("E3 fault injection happens on in-memory streams attached through the tcp/ipc post-accept / post-connect code path; faults are injected chunk by chunk at quiescence points; the healthy peer lives in its own context");
   rep.assume("RECONNECT_IVL_MAX smaller than RECONNECT_IVL: the first delay may be either value (libzmq ignores such a maximum); all other clauses apply");
   rep.add(backoff_sub(tier));
   rep.add(locality_sub(tier));
+  rep.add(mid_sub(tier));
   rep.add(inproc_sub(tier));
   rep.add(bus_pressure_sub(tier));
   rep.add(crate::c17_real::retry_sub(tier));
@@ -1010,6 +1465,26 @@ pub fn replay(_sub: &str, w: &Value) -> Result<String, String> {
       Err(format!("{:?}", o))
     }
   };
+  if w["sub"] == "fault-during-send" {
+    for tier in [Tier::Quick, Tier::Thorough] {
+      let list = mid_scenarios(tier);
+      if let Some(sc) = list.get(idx) {
+        if w["scenario"] == format!("{:?}", sc) {
+          let r = mid_world(*sc);
+          if !r.panics.is_empty() {
+            return Err(format!("panics: {:?}", r.panics));
+          }
+          let o = r.result.ok_or("world did not finish")?;
+          return if o.base.broken.is_empty() && o.base.x_closed.is_none() && o.base.h_closed.is_none() && o.base.new_peer_failed.is_none() && o.sender_finished {
+            Ok(format!("world completes without violation: {:?}", o))
+          } else {
+            Err(format!("{:?}", o))
+          };
+        }
+      }
+    }
+    return Err("scenario not found".into());
+  }
   if w["sub"] == "event-bus-pressure" {
     let sc = w["scenario"].as_str().unwrap_or("");
     let nums: Vec<usize> = sc.split(|c: char| !c.is_ascii_digit()).filter(|t| !t.is_empty()).filter_map(|t| t.parse().ok()).collect();
